@@ -78,11 +78,12 @@ CLAIMED = {
             "common to both sets is removed even transiently; expand(collapse(S)) == S.",
             "Trusted: mc/ref/vlan.py (range parser, set machine, command meaning); print style of old and new identical per dialect.",
             "DESIGN.md §3 C11"),
-    "C12": ("stateless model checking of the real annet.parallel under a controlled scheduler on virtual processes/queues: all interleavings with state de-duplication, plus preemption-bounded DFS",
+    "C12": ("stateless model checking of the real annet.parallel under a controlled scheduler on virtual processes/queues: all interleavings with state de-duplication, plus preemption-bounded DFS; TLA+ model (TLC) bound to the code by edge-cover conformance replay; bounded-exhaustive enumeration of the production callers (api.gen/patch/diff) over every ordered device selection",
             "The unmodified Parallel.irun/run, _check_children and _pool_worker run on virtual multiprocessing primitives; every "
             "scheduling decision (worker steps, feeder flushes, process exits, parent polls) is enumerated. Small configurations "
             "are explored to closure over all interleavings (states de-duplicated on the implementation's own frames), larger "
-            "ones with a preemption bound; every execution is judged: delivered multiset == submitted, payloads, termination, no hang.",
+            "ones with a preemption bound; every execution is judged: delivered multiset == submitted, payloads, termination, no hang. "
+            "Part callers: annet.api.gen / patch / diff over a three-device fabric for every ordered selection of ids: one outcome per submitted id and for no other.",
             "Trusted: the virtual Queue/Process semantics in mc/sched.py (feeder flush before exit; timed get raises Empty only on an empty pipe); task bodies pure; no external kill.",
             "DESIGN.md §3 C12"),
     "C13": ("bounded-exhaustive enumeration of JSON document pairs of one schema x glob pointer lists through the real apply_json_fragment / make_patch+apply_patch / apply_acl_filters / new_json_fragment_files against a set-theoretic reference on flattened paths; PCDeployerJob.parse_result for JSON-fragment files bound to make_patch; the other file's generator at every position of the chain",
